@@ -6,6 +6,7 @@ sub-steps is closed before any later top-level step is added.  Therefore any ste
 reference lies after position k.
 """
 import ast
+import itertools
 
 from ..source import AnalysisError, norm, dotted, walk_no_nested, enclosing_class, enclosing_function
 from ..cfg import Flow, class_named, function_named
@@ -90,8 +91,8 @@ def run(ctx):
         why = 'is not one of the three numbering sites'
         if lab in ('PlanStep.__init__', 'Result.__init__') and isinstance(st, ast.Assign) and norm(st.value) == 'step_num':
             ok = True
-        elif lab == 'QueryPlan.add_step' and isinstance(st, ast.Assign) and norm(st.value) == 'len(self.steps)':
-            ok = True
+        elif lab.startswith('QueryPlan.') and isinstance(st, ast.Assign) and norm(st.value) == 'len(self.steps)':
+            ok = True           # what add_step does with it is decided by the add_step table below
         elif isinstance(st, ast.Assign) and 'partition.step_num' in norm(st.value) and 'len(' in norm(st.value):
             # sub-step namer: '<container>_<index>' followed by the append to the container
             fn = enclosing_function(n)
@@ -110,6 +111,22 @@ def run(ctx):
               and norm(n.func.value) == 'self.steps' and n.func.attr != 'append']
     ctx.ob('C09.append-only', 'QueryPlan.add_step', len(appends) == 1 and not others and norm(appends[0].args[0]) == add.args.args[1].arg,
            'QueryPlan.add_step does not simply append the step at the end of self.steps', file=qp.file, line=add.lineno)
+    # add_step interpreted (sa/interp.py) on plans of 0 / 1 / 3 steps and steps without a number, with number 0 and with a number: the step is appended at the
+    # end, it is what is returned, and it is numbered by its position unless it already carried a (truthy) number
+    from ..interp import Interp, Obj, Raised, Env
+    for k_, num in itertools.product((0, 1, 3), (None, 0, 5)):
+        old_steps = [Obj('PlanStep', step_num=i) for i in range(k_)]
+        plan_ = Obj('QueryPlan', steps=list(old_steps))
+        step_ = Obj('PlanStep', step_num=num)
+        try:
+            ret = Interp.for_file(ctx.src, qp.file, {}, {}).call_function(add, [plan_, step_], {}, Env())
+        except Raised as r:
+            ret = f'<{r.exc_name}>'
+        want_num = num if num else k_
+        ok_ = ret is step_ and len(plan_.steps) == k_ + 1 and all(a is b for a, b in zip(plan_.steps, old_steps + [step_])) and step_.step_num == want_num
+        ctx.ob('C09.numbering', f'add_step:plan of {k_} steps:step_num={num}', ok_,
+               f'QueryPlan.add_step on a plan of {k_} steps and a step with step_num={num}: returned {ret!r:.60}, plan has {len(plan_.steps)} steps, the step is numbered '
+               f'{step_.step_num!r} (expected: appended at the end, returned, numbered {want_num})', file=qp.file, line=add.lineno)
     # constructor calls never pass step_num
     nctor = 0
     for f in planner_files(ctx):
